@@ -93,7 +93,9 @@ more("C07", "The bare-queue caller also models the library's fixed token-to-buff
 more("C08", "A monitor judges every access to a configuration field that exists or is valid only under a device feature (net status/mq/mtu, blk optional fields, console size/ports/emerg_wr, 9P mount tag) against the negotiated set; a borrowed batch runs every driver against a device that fails its requests, with subsets of the device-specific features, judged only for mechanisms used without negotiation.")
 more("C12", "Capability lists of up to 48 entries (every dword slot of the device-specific area).")
 more("C16", "Blocking receive_wait (with the frame arriving while the driver waits), interrupt enable/disable, packet_mut and TxBuffer::from are part of the operation mix.")
-more("C17", "wait_for_event is used in place of poll whenever the next packet (already delivered or still to be delivered while the driver waits) is one the protocol says is reported.")
+more("C17", "wait_for_event is used in place of poll whenever the next packet (already delivered or still to be delivered while the driver waits) is one the protocol says is reported. The >4 GiB receive runs use power-of-two and non-power-of-two buffer capacities; both >4 GiB loops have a bounded-liveness guard.")
+more("C05", "Error paths of driver-level blocking helpers (playback with failing periods, block requests with error statuses) are borrowed and judged for the notification classes.")
+more("C10", "QueueSel is judged by its effect (the device's selection at every per-queue access), so a correct selection cache is accepted; InterruptStatus values include bits the driver does not know.")
 more("C18", "wait_for_event is used in place of poll whenever the next packet is one the protocol says is reported.")
 
 TODO_REASON = "check not built yet in this round (planned, see DESIGN.md section 11); no claim is made"
